@@ -160,6 +160,11 @@ Section LexTrunc.
 End LexTrunc.
 
 (* ------------------------------------------------------------------ resolve commutes with truncation *)
+Lemma mapM_tl_ext : forall A B (f g:A -> list A -> res B) l, (forall a nx, f a nx = g a nx) -> mapM_tl f l = mapM_tl g l.
+Proof.
+  intros A B f g l H. induction l as [|a r IH]; [reflexivity|]. cbn [mapM_tl]. rewrite H, IH. reflexivity.
+Qed.
+
 Lemma mapM_ext : forall A B (f g:A -> res B) l, (forall a, In a l -> f a = g a) -> mapM f l = mapM g l.
 Proof.
   intros A B f g l. induction l as [|a r IH]; intros H; [reflexivity|].
@@ -177,11 +182,11 @@ Section ResolveTrunc.
   Hypothesis Hrec : forall ch o, wf_chain ch -> is_def o = true -> oid o <> 0 -> oid o < stop ->
                                rec' (map (trunc_objs n) ch) o = rec ch o.
 
-  Lemma lookup_var_trunc : forall diff chain w v,
+  Lemma lookup_var_trunc : forall diff chain w v dt,
     wf_chain chain ->
-    lookup_var env rec' diff (map (trunc_objs n) chain) stop w v = lookup_var env rec diff chain stop w v.
+    lookup_var env rec' diff (map (trunc_objs n) chain) stop w v dt = lookup_var env rec diff chain stop w v dt.
   Proof.
-    intros diff chain w v Hwf. unfold lookup_var.
+    intros diff chain w v dt Hwf. unfold lookup_var.
     destruct chain as [|c0 cr]; [reflexivity|].
     change (match map (trunc_objs n) (c0 :: cr) with [] => Ok None | _ :: _ => ?x end) with x.
     rewrite lexical_get_trunc by assumption.
@@ -202,8 +207,8 @@ Section ResolveTrunc.
     assert (Hw : resolve_word env rec' diff (map (trunc_objs n) chain) stop w = resolve_word env rec diff chain stop w).
     { unfold resolve_word. destruct (quote_eqb (wq w) Q1); [reflexivity|].
       destruct (fragments_of_word w) as [[[force have] frs]| |]; cbn [bind]; try reflexivity.
-      erewrite mapM_ext; [reflexivity|].
-      intros [lit|v] _; cbn [frag_result]; [reflexivity|]. rewrite lookup_var_trunc by exact Hwf. reflexivity. }
+      erewrite mapM_tl_ext; [reflexivity|].
+      intros [lit|v] nx; cbn [frag_result]; [reflexivity|]. rewrite lookup_var_trunc by exact Hwf. reflexivity. }
     rewrite Hw. reflexivity.
   Qed.
 End ResolveTrunc.
